@@ -28,7 +28,7 @@ func sentence(r *Rng, n int) string {
 
 // families of constructs; each generator returns a complete small document.
 var families = []string{"refdef", "refuse", "footnote", "footuse", "heading", "typo", "table", "openend", "fence", "attr",
-	"deflist", "tasklist", "linkify", "strike", "cjk", "entity", "emph", "html", "list", "quote", "link", "para"}
+	"deflist", "tasklist", "linkify", "strike", "cjk", "entity", "emph", "html", "list", "quote", "link", "para", "unilabel"}
 
 func genFamily(r *Rng, fam string) []byte {
 	var b strings.Builder
@@ -113,6 +113,10 @@ func genFamily(r *Rng, fam string) []byte {
 		fmt.Fprintf(&b, "日本語の\n文章 %s\nです。\\ x\nａ\nb\n", word(r))
 	case "entity":
 		fmt.Fprintf(&b, "&amp; &copy; &#35; &#x22; &nosuch; &%s; &AElig &lt;%s&gt; [a](/u?a=1&amp;b \"&quot;\")\n", pick(r, []string{"nbsp", "Dcaron", "hearts", "ngE", "zwnj"}), word(r))
+	case "unilabel": // reference labels that need Unicode case folding and whitespace collapsing to match
+		pairs := [][2]string{{"ＡＢＣ ẞ", "ａｂｃ SS"}, {"ÄÖÜ", "äöü"}, {"ΑΓΩ", "αγω"}, {"Straße", "STRASSE"}, {"İstanbul", "i̇stanbul"}, {"ǅ x", "ǆ  X"}, {"Толпой", "ТОЛПОЙ"}, {"ﬁn", "FIN"}}
+		pr := pick(r, pairs)
+		fmt.Fprintf(&b, "[%s]: /dest-%d \"%s\"\n\n[%s] and [text][%s] and [%s][]\n", pr[0], r.Intn(9), word(r), pr[1], pr[1], pr[0])
 	case "emph":
 		opts := []string{"*%s* **%s** ***x*** _a_ __b__\n", "*%s **%s* x**\n", "**%s*%s\n", "_%s_%s_ *a*b*\n", "***%s** %s*\n"}
 		fmt.Fprintf(&b, pick(r, opts), word(r), word(r))
@@ -132,14 +136,80 @@ func genFamily(r *Rng, fam string) []byte {
 	return []byte(b.String())
 }
 
+// genLong: ONE block group that is much longer than usual (many lines with no top-level
+// blank line between them), so that scratch slices, pooled buffers and line tables inside
+// the parser grow past their initial capacities (64, 128, 256, 1024...). Followed in leak
+// pairs by a small document of the same construct.
+func genLong(r *Rng) []byte {
+	n := pick(r, []int{40, 70, 130, 140, 260, 520, 1100})
+	var b strings.Builder
+	switch r.Intn(9) {
+	case 0: // list item with a blank second line and many continuation lines
+		b.WriteString("- a\n\n  b\n")
+		for i := 0; i < n; i++ {
+			fmt.Fprintf(&b, "  %s\n", word(r))
+		}
+	case 1: // one long tight list
+		for i := 0; i < n; i++ {
+			fmt.Fprintf(&b, "- %s\n", word(r))
+		}
+	case 2: // deeply nested list
+		for i := 0; i < n && i < 60; i++ {
+			fmt.Fprintf(&b, "%s- %s\n", strings.Repeat("  ", i), word(r))
+		}
+	case 3: // one long paragraph with inline constructs on every line
+		for i := 0; i < n; i++ {
+			fmt.Fprintf(&b, "%s *%s* `%s` [%s](/u%d) \"%s\"\n", word(r), word(r), word(r), word(r), i, word(r))
+		}
+	case 4: // long block quote with lazy continuation
+		for i := 0; i < n; i++ {
+			if i%3 == 2 {
+				fmt.Fprintf(&b, "%s\n", word(r))
+			} else {
+				fmt.Fprintf(&b, "> %s\n", word(r))
+			}
+		}
+	case 5: // long fenced code block
+		b.WriteString("```go\n")
+		for i := 0; i < n; i++ {
+			fmt.Fprintf(&b, "%s%s <&> \n", strings.Repeat(" ", i%5), word(r))
+		}
+		b.WriteString("```\n")
+	case 6: // long table
+		b.WriteString("| a | b |\n|:--|--:|\n")
+		for i := 0; i < n; i++ {
+			fmt.Fprintf(&b, "| %s | `x\\|y` %d |\n", word(r), i)
+		}
+	case 7: // many link reference definitions and uses in one paragraph group
+		for i := 0; i < n; i++ {
+			fmt.Fprintf(&b, "[r%d]: /u%d\n", i, i)
+		}
+		b.WriteString("\n")
+		for i := 0; i < n; i++ {
+			fmt.Fprintf(&b, "[r%d] ", i)
+		}
+		b.WriteString("\n")
+	default: // many footnotes / headings without blank lines
+		for i := 0; i < n; i++ {
+			fmt.Fprintf(&b, "# %s\n", pick(r, headingTexts))
+		}
+	}
+	return []byte(b.String())
+}
+
+var longFollowers = []string{"- a\n  - b\n    - c\n", "- a\n- b\n\n- c\n", "1. a\n   b\n2. c\n", "> a\nb\n", "a\nb\n\nc\n", "| a |\n|-|\n| b |\n", "```\nx\n```\n", "[r1] [r2]\n", "# a\n# a\n", "- a\n\n  b\n- c\n", "* a\n  * b\n\n    c\n"}
+
 // leak pairs: a definer followed by a user of the same kind of per-document state. If
 // state survived a call the user's output changes.
 var leakPairs = [][2]string{{"refdef", "refuse"}, {"footnote", "footuse"}, {"footnote", "footnote"}, {"heading", "heading"},
 	{"typo", "typo"}, {"table", "table"}, {"openend", "para"}, {"openend", "list"}, {"openend", "heading"}, {"openend", "fence"},
 	{"openend", "typo"}, {"openend", "refuse"}, {"openend", "table"}, {"fence", "fence"}, {"attr", "heading"}, {"deflist", "para"},
-	{"emph", "emph"}, {"list", "list"}, {"html", "para"}, {"refdef", "link"}, {"entity", "entity"}, {"quote", "para"}}
+	{"emph", "emph"}, {"list", "list"}, {"unilabel", "unilabel"}, {"unilabel", "refuse"}, {"html", "para"}, {"refdef", "link"}, {"entity", "entity"}, {"quote", "para"}}
 
 func genLeakPair(r *Rng) ([]byte, []byte) {
+	if r.Chance(1, 12) {
+		return genLong(r), []byte(pick(r, longFollowers))
+	}
 	p := pick(r, leakPairs)
 	// Same sub-stream for both halves in half of the cases, so that both use the same
 	// labels / heading texts / footnote names.
@@ -288,7 +358,7 @@ func genAnyDoc(r *Rng, c *Corpus) []byte {
 }
 
 // herd: k documents of the same construct family with different parameters.
-var herdFamilies = []string{"fence", "list", "link", "refdef", "emph", "table", "footnote", "heading", "typo", "openend", "entity", "quote", "deflist", "attr", "html"}
+var herdFamilies = []string{"unilabel", "fence", "list", "link", "refdef", "emph", "table", "footnote", "heading", "typo", "openend", "entity", "quote", "deflist", "attr", "html"}
 
 func genHerd(r *Rng, c *Corpus, k int) [][]byte {
 	fam := pick(r, herdFamilies)
